@@ -84,6 +84,7 @@ import warnings
 import numpy as np
 
 from ..gen import arrays as A
+from ..mon import siblings as S
 from ..mon.compare import compare_arrays, float_tol, lazy_meta_mismatch
 
 PROP = "C22"
@@ -707,14 +708,18 @@ def run_case(case, ctx, _classify=True):
     dx = da.from_array(x, chunks=chunks)
 
     # ---- build the NumPy reference and the dask thunk -----------------------------------------
-    kw = {}
-    if fam in ("red", "arg", "med", "quant"):
-        kw["axis"] = axis
-        kw["keepdims"] = kd
-    if "ddof" in case:
-        kw["ddof"] = case["ddof"]
-    if case.get("dtype_arg"):
-        kw["dtype"] = case["dtype_arg"]
+    def mk_kw(c):
+        k = {}
+        if fam in ("red", "arg", "med", "quant"):
+            k["axis"] = _axis(c.get("axis"))
+            k["keepdims"] = bool(c.get("keepdims", False))
+        if "ddof" in c:
+            k["ddof"] = c["ddof"]
+        if c.get("dtype_arg"):
+            k["dtype"] = c["dtype_arg"]
+        return k
+
+    kw = mk_kw(case)
 
     def ref():
         if op == "moment":
@@ -730,21 +735,24 @@ def run_case(case, ctx, _classify=True):
             return getattr(np, op)(x, case["q"], method=case["qmethod"], **kw)
         return getattr(np, op)(x, **kw)
 
-    def dask_call(se):
+    def dask_call(se, c=case):
+        # c is the case itself, or (sibling facet) the case with one parameter changed
+        kw = mk_kw(c)
+        axis = _axis(c.get("axis"))
         if op == "moment":
             k2 = dict(kw)
-            return da.moment(dx, case["order"], split_every=se, **k2)
+            return da.moment(dx, c["order"], split_every=se, **k2)
         if fam == "cum":
-            k2 = {"axis": axis, "method": case["method"]}
+            k2 = {"axis": axis, "method": c["method"]}
             if "dtype" in kw:
                 k2["dtype"] = kw["dtype"]
             return getattr(da, op)(dx, **k2)
         if fam == "topk":
-            return getattr(da, op)(dx, case["k"], axis=axis, split_every=se)
+            return getattr(da, op)(dx, c["k"], axis=axis, split_every=se)
         if fam == "med":
             return getattr(da, op)(dx, **kw)
         if fam == "quant":
-            return getattr(da, op)(dx, case["q"], method=case["qmethod"], **kw)
+            return getattr(da, op)(dx, c["q"], method=c["qmethod"], **kw)
         return getattr(da, op)(dx, split_every=se, **kw)
 
     with warnings.catch_warnings():
@@ -830,6 +838,122 @@ def run_case(case, ctx, _classify=True):
     ctx.sample = {"op": op, "chunks": case["chunks"], "axis": case.get("axis"), "split_every": case.get("ses"),
                   "result_shape": list(rv0.shape), "dtype": str(rv0.dtype),
                   "tolerance": list(float_tol(e.dtype, n=nred, scale=scale)) if e.dtype.kind in "fc" else "exact"}
+    # ---- sibling facet: the same call with ONE parameter changed must not share keys with this one ------------
+    if _classify:
+        sib = _sibling(case, fam)
+        if sib is not None:
+            param, c2, se2 = sib
+            se0, r0, v0 = results[0]
+            S.check(ctx, "arg-reduction" if fam == "arg" else op, param, r0,
+                    (lambda: dask_call(se0 if se2 is _SAME else _se(se2), c2)), va=v0,
+                    describe={k: c2.get(k) for k in ("axis", "keepdims", "ddof", "order", "method", "k", "q", "qmethod", "dtype_arg")
+                              if c2.get(k) != case.get(k)} or {"split_every": se2})
+
+
+_SAME = object()
+
+
+def _sibling(case, fam):
+    """(parameter, case with that ONE parameter changed, split_every or _SAME) or None.  The changed parameter is one
+    that the result depends on: axis / keepdims / ddof / split_every / order / method / k / q / q method / dtype=."""
+    op = case["op"]
+    shape = case["shape"]
+    nd = len(shape)
+    srng = S.rng_for(case)
+    axis = _axis(case.get("axis"))
+    opts = []
+    if nd >= 2 or (nd == 1 and fam == "red"):
+        opts.append("axis")
+    for k in ("keepdims", "ddof", "order", "method", "k", "q", "qmethod"):
+        if k in case:
+            opts.append(k)
+    if "ses" in case:
+        opts.append("split_every")
+    if fam == "cum" or op in ("sum", "prod", "mean", "var", "std", "nansum", "nanprod", "nanmean", "nanvar", "nanstd"):
+        opts.append("dtype")
+    srng.shuffle(opts)
+    for param in opts:
+        c2 = dict(case)
+        if param == "axis":
+            cur = sorted(_norm_axes(axis, nd))
+            if fam in ("arg", "cum"):
+                cand = [None] + list(range(nd))
+            elif fam == "topk":
+                cand = list(range(nd))
+            else:
+                cand = list(_axis_choices(nd, "red"))       # axis=() (nothing reduced) included for the plain reductions
+                if fam in ("med", "quant"):
+                    cand = [a for a in cand if a is not None and a != []]
+            # another set of reduced axes; for arg-reductions and scans of >= 2-d arrays also flattened (None) against an int
+            cand = [a for a in cand if sorted(_norm_axes(_axis(a), nd)) != cur
+                    or (nd >= 2 and fam in ("arg", "cum") and (a is None) != (axis is None))]
+            if fam == "topk":
+                cand = [a for a in cand if shape[a] >= abs(case["k"])]
+            if not cand:
+                continue
+            c2["axis"] = srng.choice(cand)
+            if "ddof" in c2 and not op.startswith("nan"):
+                nred = 1
+                for a in _norm_axes(_axis(c2["axis"]), nd):
+                    nred *= shape[a]
+                if c2["ddof"] > nred:
+                    continue
+            return "axis", c2, _SAME
+        if param == "keepdims":
+            c2["keepdims"] = not case["keepdims"]
+            return "keepdims", c2, _SAME
+        if param == "ddof":
+            nred = 1
+            for a in _norm_axes(axis, nd):
+                nred *= shape[a]
+            cand = [d for d in (0, 1, 2) if d != case["ddof"] and (op.startswith("nan") or d <= nred)]
+            if not cand:
+                continue
+            c2["ddof"] = srng.choice(cand)
+            return "ddof", c2, _SAME
+        if param == "order":
+            c2["order"] = srng.choice([o for o in (0, 1, 2, 3, 4) if o != case["order"]])
+            return "order", c2, _SAME
+        if param == "method":
+            c2["method"] = "blelloch" if case["method"] == "sequential" else "sequential"
+            return "method", c2, _SAME
+        if param == "k":
+            n_ax = shape[axis % nd]
+            cand = [k for k in list(range(1, n_ax + 1)) + [-k for k in range(1, n_ax + 1)] if k != case["k"]]
+            c2["k"] = srng.choice(cand)
+            return "k", c2, _SAME
+        if param == "q":
+            q = case["q"]
+            if isinstance(q, list):
+                q2 = list(q)
+                i = srng.randrange(len(q2))
+                q2[i] = srng.choice([v for v in (0.0, 0.1, 0.25, 0.5, 0.7, 1.0) if v != q2[i]])
+            else:
+                q2 = srng.choice([v for v in (0.0, 0.25, 0.5, 0.3, 1.0) if v != q])
+            c2["q"] = q2
+            return "q", c2, _SAME
+        if param == "qmethod":
+            c2["qmethod"] = srng.choice([m for m in QMETHODS if m != case["qmethod"]])
+            return "method", c2, _SAME
+        if param == "split_every":
+            first = case["ses"][0]
+            cand = [v for v in (2, 3, 5) if v != first]
+            return "split_every", c2, srng.choice(cand)
+        if param == "dtype":
+            pool = ["float32", "float64", "complex128"]
+            if fam == "cum" or op in ("sum", "prod", "nansum", "nanprod"):
+                pool.append("int64")
+            pool = [p for p in pool if np.can_cast(np.dtype(case["dtype"]), np.dtype(p), "same_kind") and p != case.get("dtype_arg")]
+            if op in PRODLIKE:
+                pool = [p for p in pool if p != "float32"]
+            if case.get("dtype_arg") and srng.random() < 0.3:
+                c2.pop("dtype_arg")
+                return "dtype", c2, _SAME
+            if not pool:
+                continue
+            c2["dtype_arg"] = srng.choice(pool)
+            return "dtype", c2, _SAME
+    return None
 
 
 def _var_also_differs(case, op, dx, x, se, kw, nred, scale):
